@@ -17,6 +17,8 @@ func main() {
 		cmdScan(os.Args[2:])
 	case "tree":
 		cmdTree(os.Args[2:])
+	case "build":
+		cmdBuild(os.Args[2:])
 	default:
 		fmt.Fprintln(os.Stderr, "unknown command", os.Args[1])
 		os.Exit(2)
